@@ -435,7 +435,7 @@ def gen_case(rng, tier):
     # rejected calls
     rej = []
     for j in range(rng.choice([0, 0, 1, 2, 4])):
-        k = rng.randrange(12)
+        k = rng.randrange(14)
         defined = [s[0] for s in sigs]
         undefined = rng.choice([i for i in (4, 5, 6, 77, 254, 256, 300, 65535) if i not in defined])
         if k == 0:
@@ -460,8 +460,12 @@ def gen_case(rng, tier):
             rej.append("omit %d 1" % rng.choice([undefined, 0]))
         elif k == 10:
             rej.append("anno %d 0 0 0 0 2 -" % rng.choice(defined + [0]))                     # NULL string
-        else:
+        elif k == 11:
             rej.append("ud 1 %d -" % rng.choice([2, 3]))                                      # NULL string
+        elif k == 12:
+            rej.append("ud %d %d n%d" % (rng.choice([1, 0x123]), rng.choice([0, 1, 1, 1, 2]), rng.choice([1, 16, 4000])))   # NULL data with a size
+        else:
+            rej.append("anno %d 0 0 1 0 %d n%d" % (rng.choice(defined + [0]), rng.choice([1, 1, 2]), rng.choice([1, 16])))  # NULL data with a size
     if rej:
         dist.append("rejected")
     # ---- interleave: every signal's definition precedes its data; streams are merged randomly ----
